@@ -197,14 +197,29 @@ def nanfill(chk, prog):
     def on_call(fa, node, st):
         if fa.np_name(node.func) == "split" and len(node.args) == 2:
             splits.append((node, fa.vn(node.args[0], st), fa.vn(node.args[1], st), fa.vn(node, st)))
-    rets = []
+    rets = []          # (node, vn of the iterated runs, loop target name, element expression)
+    appended = {}
+    site_facts = {}
+
+    def on_for(fa, node, st):
+        # for run in <runs>: out.append((run[0], run[-1]))
+        if len(node.body) == 1 and isinstance(node.body[0], ast.Expr) and isinstance(node.body[0].value, ast.Call) and not node.orelse:
+            c_ = node.body[0].value
+            if isinstance(c_.func, ast.Attribute) and c_.func.attr == "append" and isinstance(c_.func.value, ast.Name) and len(c_.args) == 1 and isinstance(node.target, ast.Name):
+                appended[c_.func.value.id] = (node, fa.vn(node.iter, st), node.target.id, c_.args[0])
+                site_facts[id(node)] = st["F"]
 
     class R(Facts):
         def s_Return(self2, s_, st):
-            if isinstance(s_.value, ast.ListComp) and len(s_.value.generators) == 1:
-                rets.append((s_, self2.vn(s_.value.generators[0].iter, st)))
+            v_ = s_.value
+            if isinstance(v_, ast.ListComp) and len(v_.generators) == 1 and not v_.generators[0].ifs:
+                gen_ = v_.generators[0]
+                rets.append((s_, self2.vn(gen_.iter, st), gen_.target.id if isinstance(gen_.target, ast.Name) else None, v_.elt))
+                site_facts[id(s_)] = st["F"]
+            elif isinstance(v_, ast.Name) and v_.id in appended:
+                rets.append(appended[v_.id])
             return super().s_Return(s_, st)
-    R(g, prog, callbacks={"call": on_call}).analyse()
+    R(g, prog, callbacks={"call": on_call, "for": on_for}).analyse()
     if len(splits) != 1 or not rets:
         chk.error("NANFILL.intervals: get_nan_intervals is not in the recognised split-on-gaps form (cannot decide): %d np.split calls, %d list-comprehension returns" % (len(splits), len(rets)))
         return
@@ -222,14 +237,11 @@ def nanfill(chk, prog):
         why = "split points are where(diff(I) ...)[0] + %d, not + 1: each run is cut one row off its true end" % shift
     elif (op, thr) not in (("Gt", 1), ("GtE", 2), ("NotEq", 1)):
         why = "runs are split where diff(I) %s %d, not where the index gap exceeds 1" % (op, thr)
-    for r_, it_vn in rets:
-        gen = r_.value.generators[0]
-        e = r_.value.elt
+    for r_, it_vn, tname, e in rets:
         if it_vn != s_vn:
             why = why or "the returned intervals iterate over something other than the split runs"
-        tname = gen.target.id if isinstance(gen.target, ast.Name) else None
 
-        def idx(x):
+        def idx(x, tname=tname):
             if isinstance(x, ast.Subscript) and isinstance(x.value, ast.Name) and x.value.id == tname:
                 try:
                     return ast.literal_eval(x.slice)
@@ -238,6 +250,19 @@ def nanfill(chk, prog):
             return None
         if not (isinstance(e, ast.Tuple) and len(e.elts) == 2 and idx(e.elts[0]) == 0 and idx(e.elts[1]) == -1):
             why = why or "each interval is `%s`, not (run[0], run[-1])" % ast.unparse(e)
+    # np.split never returns an empty list: splitting an EMPTY index array gives one empty run, whose [0] raises.  The element access must be
+    # dominated by a test that some NaN index exists (len / size of the index array, or any() of the mask).
+    mask_vn = a_vn[len("np.where("):-len(")[c:0]")]
+    want = {("NZ", "len(%s)" % a_vn), ("NZ", a_vn + ".size"), ("NZ", a_vn + ".shape[c:0]"), ("ANY", mask_vn)}
+    for r_, it_vn, tname, e in rets:
+        site = g.ref + "::no-gap input"
+        if site_facts.get(id(r_), frozenset()) & want:
+            chk.record("NANFILL.empty", site, "run[0] is reached only when some NaN index exists (np.split of an empty index array yields one empty run)")
+        else:
+            chk.record("NANFILL.empty", site, "run[0] is reached only when some NaN index exists", verdict="VIOLATION")
+            chk.finding("NANFILL.empty", CORE, "get_nan_intervals", "run[0] of np.split(<indices>) without an emptiness test of the indices",
+                        "np.split of an empty index array returns [array([])], never []: for data without NaN the element access run[0] raises IndexError, so slerp_nan() "
+                        "on a gap-free array raises instead of leaving the valid rows unchanged (a `len(<split result>) == 0` test can never be true)", line=r_.lineno)
     if why is None:
         chk.record("NANFILL.intervals", g.ref, "returns (first, last) of each run of consecutive NaN rows (split where the index gap exceeds 1)")
     else:
@@ -323,7 +348,17 @@ def canaries(chk, prog):
                         c.value = 2
                         return True
         return False
-    for name, rel, tr, fn in (("drop `qdot *= -1` in quaternion.slerp", QUAT, drop_dot_update, slerp_rules), ("interval[1]-interval[0]+3 -> +2", QUAT, off_by_one, nanfill)):
+    def dead_empty_test(tree):
+        # the emptiness test moved back onto the split result (never empty)
+        for n in ast.walk(tree):
+            if isinstance(n, ast.FunctionDef) and n.name == "get_nan_intervals":
+                for s in ast.walk(n):
+                    if isinstance(s, ast.If) and any(isinstance(b, ast.Return) for b in s.body):
+                        s.test = ast.Constant(False)
+                        return True
+        return False
+    for name, rel, tr, fn in (("drop `qdot *= -1` in quaternion.slerp", QUAT, drop_dot_update, slerp_rules), ("interval[1]-interval[0]+3 -> +2", QUAT, off_by_one, nanfill),
+                              ("get_nan_intervals: emptiness test of the NaN indices removed", CORE, dead_empty_test, nanfill)):
         try:
             p2 = prog.mutated(rel, tr)
             sub = Check("C12", chk.tier, p2, quiet=True)
@@ -339,5 +374,6 @@ def run(chk, prog, tier):
     jumps_twin(chk, prog)
     chk.require_count("TWIN.slerp", 4)
     chk.require_count("SLERP.unit", 2)
+    chk.require_count("NANFILL.empty", 1)
     canaries(chk, prog)
     return __doc__
